@@ -391,6 +391,33 @@ class PlatCalInterp(Base):
                 self.stats["remove-then-add"] += 1
             self.edited()
             self.check("add-many")
+        elif o == "add-many-unequal":
+            # platforms and channels of different lengths: what is added is unspecified, the pairing invariants are not
+            k = 1 + op["idx"] % 3
+            new = [self.fresh() for _ in range(k)]
+            used = set(self.used())
+            chans, c = [], op.get("ch", 0) % 32000
+            for _ in range(k + (1 if op["mode"] == "free" else -1) or 2):
+                while c in used:
+                    c = (c + 1) % 32000
+                chans.append(c)
+                used.add(c)
+            try:
+                self.b.add_platforms([p for p, _ in new], chans)
+            except Exception:  # noqa - refusing is fine
+                pass
+            pairs = self.exposed()
+            for (p, tag) in new:
+                hit = next((int(cc) for cc, it in pairs if it is p), None)
+                if hit is not None:
+                    self.items[id(p)] = (p, tag)
+                    self.given[id(p)] = hit
+                    if hit not in chans:
+                        self.ctx.fail("add-many-unequal/channel-not-from-list", f"platCal: bulk add bound a platform to channel {hit}, which is not one of the given channels {chans}")
+            self.model = [(int(cc), id(it)) for cc, it in pairs if id(it) in self.given]
+            self.stats["bulk"] += 1
+            self.edited()
+            self.check("add-many-unequal")
         elif o == "assign":
             k = op["idx"] % 4
             new = [self.fresh() for _ in range(k)]
@@ -524,7 +551,7 @@ def ops(t):
         return st.one_of(add, add, rem, rem, readd)
     if t == "platCal":
         rem = st.fixed_dictionaries({"op": st.just("remove"), "target": st.sampled_from(["index", "item", "index-out-of-range", "absent-item"]), "idx": idx})
-        many = st.fixed_dictionaries({"op": st.sampled_from(["remove-many", "add-many", "assign"]), "mode": st.sampled_from(["free", "auto", "collide"]), "idx": idx, "ch": ch})
+        many = st.fixed_dictionaries({"op": st.sampled_from(["remove-many", "add-many", "assign", "add-many-unequal"]), "mode": st.sampled_from(["free", "auto", "collide"]), "idx": idx, "ch": ch})
         twin = st.fixed_dictionaries({"op": st.just("add-twin"), "idx": idx, "ch": ch})
         return st.one_of(add, add, rem, rem, rem, many, readd, twin)
     assign = st.fixed_dictionaries({"op": st.just("assign"), "mode": st.sampled_from(["valid", "valid", "collide"]), "idx": idx})
